@@ -309,3 +309,464 @@ def bundled_controllers(dim: int) -> dict[str, Any]:
 
 def ann_name(layers: list[int]) -> str:
     return "ann_" + "_".join(map(str, layers)) if layers else "ann"
+
+
+# ----------------------------------------------------------------------------
+# C10: programs = (equations, controller) pairs
+# ----------------------------------------------------------------------------
+
+#: values an ill-behaved controller / differential may produce
+BAD_VALUES = ("nan", "inf", "-inf", 1e50, -1e50, 1e300, 1e10, -1e10, 5e10,
+              -1e11, 9.9e9, -9.9e9)
+
+
+def bad_value(v: Any) -> float:
+    return float(v)
+
+
+def value_is_ok(v: float) -> bool:
+    """Inside the documented sane range (-1e10, 1e10)."""
+    return -1e10 < v < 1e10
+
+
+#: the same without the values inside (-1e10, 1e10): a huge but admissible
+#: constant forcing makes the cubic damping of the bundled systems extremely
+#: stiff (millions of RK45 steps) - a cost limit, see DESIGN.md section 7
+BAD_VALUES_OUTSIDE = tuple(v for v in BAD_VALUES
+                           if not isinstance(v, float) or abs(v) >= 1e10)
+
+
+@st.composite
+def _fault(draw: Any, n_out: int, max_time: float, allow_exp: bool,
+           stiff_base: bool = False) -> dict:
+    when = draw(st.sampled_from(
+        ["always", "after", "after", "norm", "norm"]
+        + (["exp", "exp"] if allow_exp else [])))
+    if when == "exp":
+        return {"when": "exp", "p": draw(_f(0.5, 50.0)),
+                "sign": draw(st.sampled_from([1.0, -1.0])),
+                "index": draw(st.integers(0, n_out - 1))}
+    values = BAD_VALUES_OUTSIDE if stiff_base else BAD_VALUES
+    f = {"when": when, "value": draw(st.sampled_from(values)),
+         "index": draw(st.integers(-1, n_out - 1))}  # -1 = all entries
+    if when == "after":
+        f["p"] = draw(st.one_of(_f(0.0, max_time), _f(0.0, 1.5 * max_time),
+                                st.just(0.0)))
+    elif when == "norm":
+        f["p"] = draw(_signed_mag(1e-2, 1e4).map(abs))
+    return f
+
+
+@st.composite
+def _linear_equations(draw: Any, dims: tuple = (2, 6), cdim_max: int = 2,
+                      growth: float = 0.5) -> dict:
+    n = draw(st.integers(*dims))
+    blocks: list[list[float]] = []
+    left = n
+    while left > 0:
+        if left >= 2 and draw(st.booleans()):
+            blocks.append([draw(_f(-3.0, growth)), draw(_f(0.0, 6.0))])
+            left -= 2
+        else:
+            blocks.append([draw(st.one_of(_f(-3.0, growth), st.just(0.0)))])
+            left -= 1
+    cdim = draw(st.integers(1, cdim_max))
+    b = [[draw(st.one_of(st.just(0.0), _f(-2.0, 2.0))) for _ in range(cdim)]
+         for _ in range(n)]
+    return {"kind": "linear", "blocks": blocks, "b": b}
+
+
+@st.composite
+def _linear_controller(draw: Any, n: int, cdim: int) -> dict:
+    kind = draw(st.sampled_from(["zero", "const", "feedback", "feedback"]))
+    c = [0.0] * cdim
+    k = [[0.0] * n for _ in range(cdim)]
+    if kind in ("const", "feedback"):
+        c = [draw(_f(-3.0, 3.0)) for _ in range(cdim)]
+    if kind == "feedback":
+        if draw(st.booleans()):
+            c = [0.0] * cdim
+        k = [[draw(st.one_of(st.just(0.0), _f(-2.0, 2.0)))
+              for _ in range(n)] for _ in range(cdim)]
+    return {"kind": "linear", "sub": kind, "c": c, "K": k}
+
+
+@st.composite
+def _start(draw: Any, n: int) -> list[float]:
+    return [draw(st.one_of(_signed_mag(1e-3, 10.0), _signed_mag(1e-3, 10.0),
+                           st.just(0.0))) for _ in range(n)]
+
+
+@st.composite
+def _budget(draw: Any, max_steps: int, max_time: float) -> tuple[int, float]:
+    steps = draw(st.one_of(st.integers(10, max_steps), st.integers(10, 30)))
+    t = draw(st.one_of(_f(0.1, max_time), _f(0.1, min(2.0, max_time))))
+    return steps, t
+
+
+@st.composite
+def _jspec(draw: Any, n: int) -> dict:
+    return {"use": draw(st.sampled_from([-1, 0, *range(1, n + 1)])),
+            "gamma": draw(st.sampled_from([0.0, 0.1, 1.0, 0.1, 2.5]))}
+
+
+def n_of_blocks(blocks: list[list[float]]) -> int:
+    return sum(len(b) for b in blocks)
+
+
+@st.composite
+def linear_programs(draw: Any, max_steps: int = 200,
+                    max_time: float = 20.0) -> dict:
+    """Family (a): ds/dt = A s + B u with u = c - K s."""
+    eq = draw(_linear_equations())
+    n = n_of_blocks(eq["blocks"])
+    cdim = len(eq["b"][0])
+    steps, t = draw(_budget(max_steps, max_time))
+    return {"eq": eq, "ctrl": draw(_linear_controller(n, cdim)),
+            "start": draw(_start(n)), "steps": steps, "max_time": t,
+            "j": draw(_jspec(n))}
+
+
+BUNDLED_SYSTEMS = ("stuart_landau", "lorenz", "3oscillators")
+SYSTEM_DIM = {"stuart_landau": 2, "lorenz": 3, "3oscillators": 6}
+
+
+def controller_catalog() -> dict[int, list[tuple[str, int]]]:
+    """dim -> [(controller name, param_dims)] of all bundled blueprints."""
+    res = {}
+    for dim in (2, 3, 6):
+        res[dim] = sorted((name, int(c.param_dims))
+                          for name, c in bundled_controllers(dim).items())
+    return res
+
+
+@st.composite
+def _bundled_controller(draw: Any, catalog: dict, dim: int,
+                        wild: bool = True) -> dict:
+    name, n = draw(st.sampled_from(catalog[dim]))
+    kinds = ("rng", "rng", "near_zero", "rng_small", "unit", "ints")
+    if wild:
+        kinds = (*kinds, "corner", "uniform")
+    return {"kind": "bundled", "name": name, "dim": dim,
+            "params": draw(pvec(n, kinds=kinds))}
+
+
+@st.composite
+def _bundled_start(draw: Any, name: str) -> list[float]:
+    n = SYSTEM_DIM[name]
+    scale = {"stuart_landau": 0.5, "lorenz": 20.0, "3oscillators": 0.3}[name]
+    if draw(st.booleans()):
+        return [draw(_f(-scale, scale)) for _ in range(n)]
+    return draw(_start(n))
+
+
+@st.composite
+def bundled_programs(draw: Any, catalog: dict, max_steps: int = 120,
+                     max_time: float = 5.0) -> dict:
+    """Family (b): bundled systems x bundled controllers."""
+    name = draw(st.sampled_from(BUNDLED_SYSTEMS))
+    n = SYSTEM_DIM[name]
+    steps, t = draw(_budget(max_steps, max_time))
+    return {"eq": {"kind": "bundled", "name": name},
+            "ctrl": draw(_bundled_controller(catalog, n)),
+            "start": draw(_bundled_start(name)), "steps": steps,
+            "max_time": t, "j": draw(_jspec(n))}
+
+
+@st.composite
+def adversarial_programs(draw: Any, catalog: dict, max_steps: int = 120,
+                         max_time: float = 10.0) -> dict:
+    """Families (c) and (d): a well-behaved program with a fault in the
+    controller and/or in the differential."""
+    stiff = draw(st.integers(0, 2)) == 0
+    if stiff:
+        base = draw(bundled_programs(catalog, max_steps, min(max_time, 5.0)))
+        base["ctrl"]["params"] = draw(pvec(
+            len(base["ctrl"]["params"]),
+            kinds=("near_zero", "rng_small", "ints")))
+        n = SYSTEM_DIM[base["eq"]["name"]]
+        cdim = 1
+    else:
+        base = draw(linear_programs(max_steps, max_time))
+        n = len(base["start"])
+        cdim = len(base["eq"]["b"][0])
+    which = draw(st.sampled_from(["ctrl", "ctrl", "eq", "both"]))
+    t = base["max_time"]
+    if which in ("ctrl", "both"):
+        # exp(p t) growth only on the linear systems (same cost limit)
+        base["ctrl"]["fault"] = draw(_fault(cdim, t, not stiff, stiff))
+    if which in ("eq", "both"):
+        base["eq"]["fault"] = draw(_fault(n, t, False, stiff))
+    return base
+
+
+def nan_at_start_programs() -> list[dict]:
+    """Explicit programs whose differential is NaN at t=0."""
+    out = []
+    for i, (blocks, start, steps, t, idx) in enumerate([
+            ([[-1.0], [-1.0]], [1.0, 2.0], 20, 5.0, -1),
+            ([[-0.5, 2.0], [0.0]], [0.5, -0.25, 3.0], 50, 1.0, 1),
+            ([[0.1], [-2.0], [-1.0, 1.0]], [0.0, 0.0, 0.0, 0.0], 10, 20.0,
+             3)]):
+        n = n_of_blocks(blocks)
+        out.append({
+            "eq": {"kind": "linear", "blocks": blocks,
+                   "b": [[1.0] for _ in range(n)],
+                   "fault": {"when": "always", "value": "nan", "index": idx}},
+            "ctrl": {"kind": "linear", "sub": "zero", "c": [0.0],
+                     "K": [[0.0] * n]},
+            "start": start, "steps": steps, "max_time": t,
+            "j": {"use": -1, "gamma": 0.1}, "id": i})
+    out.append({
+        "eq": {"kind": "bundled", "name": "lorenz",
+               "fault": {"when": "always", "value": "nan", "index": 2}},
+        "ctrl": {"kind": "bundled", "name": "linear", "dim": 3,
+                 "params": [0.5, -0.5, 0.25]},
+        "start": [1.0, 1.0, 1.0], "steps": 30, "max_time": 2.0,
+        "j": {"use": -1, "gamma": 0.1}, "id": 3})
+    return out
+
+
+@st.composite
+def ode_arrays(draw: Any) -> dict:
+    """Synthetic simulation results for the figure of merit / differential
+    functions: strictly increasing, non-uniform times starting at 0."""
+    n = draw(st.integers(1, 4))
+    cdim = draw(st.integers(1, 3))
+    rows = draw(st.integers(2, 9))
+    val = st.one_of(_f(-10.0, 10.0), st.integers(-3, 3).map(float),
+                    _signed_mag(1e-6, 1e9))
+    cval = st.one_of(val, val, val, val, val, val, val, val, val,
+                     st.sampled_from([1e100, -1e100, 1e150, 9.99e99]))
+    t = 0.0
+    data = []
+    for _ in range(rows):
+        data.append([draw(val) for _ in range(n)]
+                    + [draw(cval) for _ in range(cdim)] + [t])
+        t += draw(st.one_of(_f(1e-3, 5.0), st.integers(1, 4).map(float)))
+    return {"rows": data, "n": n, "j": draw(_jspec(n))}
+
+
+# -- building programs -------------------------------------------------------
+
+def _fault_active(fault: dict, state: Any, t: float) -> bool:
+    when = fault["when"]
+    if when == "always":
+        return True
+    if when == "after":
+        return t > fault["p"]
+    if when == "norm":
+        return max(abs(float(v)) for v in state) > fault["p"]
+    raise ValueError(when)
+
+
+def _apply_fault(fault: dict, state: Any, t: float, out: Any) -> None:
+    if fault["when"] == "exp":
+        out[fault["index"]] += fault["sign"] * math.exp(
+            min(fault["p"] * t, 700.0))
+        return
+    if _fault_active(fault, state, t):
+        v = bad_value(fault["value"])
+        if fault["index"] < 0:
+            out[:] = v
+        else:
+            out[fault["index"]] = v
+
+
+def build_equations(spec: dict) -> Any:
+    """A callable ``equations(state, t, control, out)`` (pure function)."""
+    import numpy as np
+    fault = spec.get("fault")
+    if spec["kind"] == "linear":
+        from vf.oracle_dc import linear_blocks_matrix
+        a = linear_blocks_matrix(spec["blocks"])
+        b = np.array(spec["b"], dtype=float)
+
+        def base(state: Any, _t: float, control: Any, out: Any) -> None:
+            out[:] = a @ state + b @ control
+    else:
+        base = bundled_system(spec["name"]).equations
+    if fault is None:
+        return base
+
+    def faulty(state: Any, t: float, control: Any, out: Any) -> None:
+        base(state, t, control, out)
+        _apply_fault(fault, state, t, out)
+    return faulty
+
+
+class WorkLimit(BaseException):
+    """More controller invocations than the work budget of a case."""
+
+
+class WorkCounter:
+    """Counts controller invocations; a deterministic work budget (not a
+    time limit): exceeding ``limit`` raises :class:`WorkLimit`."""
+
+    def __init__(self, limit: Any = None) -> None:
+        self.n = 0
+        self.limit = limit
+
+    def wrap(self, fn: Any) -> Any:
+        def counted(state: Any, t: float, p: Any, out: Any) -> None:
+            self.n += 1
+            if self.limit is not None and self.n > self.limit:
+                raise WorkLimit
+            fn(state, t, p, out)
+        return counted
+
+
+def build_controller(spec: dict, counter: Any = None) -> tuple[Any, Any, int]:
+    """(controller callable, parameter array, control dims)."""
+    fn, params, cdim = _build_controller(spec)
+    if counter is not None:
+        fn = counter.wrap(fn)
+    return fn, params, cdim
+
+
+def _build_controller(spec: dict) -> tuple[Any, Any, int]:
+    import numpy as np
+    fault = spec.get("fault")
+    if spec["kind"] == "linear":
+        cdim = len(spec["c"])
+        n = len(spec["K"][0])
+        params = np.array(list(spec["c"]) + [v for row in spec["K"]
+                                             for v in row], dtype=float)
+
+        def base(state: Any, _t: float, p: Any, out: Any) -> None:
+            for j in range(cdim):
+                acc = p[j]
+                off = cdim + j * n
+                for i in range(n):
+                    acc -= p[off + i] * state[i]
+                out[j] = acc
+    else:
+        ctrl = bundled_controllers(spec["dim"])[spec["name"]]
+        base = ctrl.controller
+        cdim = int(ctrl.control_dims)
+        params = np.array(spec["params"], dtype=float)
+    if fault is None:
+        return base, params, cdim
+
+    def faulty(state: Any, t: float, p: Any, out: Any) -> None:
+        base(state, t, p, out)
+        _apply_fault(fault, state, t, out)
+    return faulty, params, cdim
+
+
+# ----------------------------------------------------------------------------
+# C11: histories on one objective object
+# ----------------------------------------------------------------------------
+
+def rebuilt_system(name: str, steps: int, time: float) -> Any:
+    """The bundled system rebuilt through the public ``System`` constructor
+    with a small training budget (same equations, same training states)."""
+    key = ("sys", name, int(steps), float(time))
+    if key in _CACHE:
+        return _CACHE[key]
+    from moptipyapps.dynamic_control.system import System
+    orig = bundled_system(name)
+    system = System(orig.name, orig.state_dims, orig.control_dims,
+                    orig.state_dim_mod, orig.state_dims_in_j, orig.gamma,
+                    orig.test_starting_states,
+                    orig.training_starting_states,
+                    int(steps), float(time), int(steps), float(time),
+                    (0, ))
+    system.equations = orig.equations  # type: ignore
+    if len(_CACHE) > 400:
+        for k in [k for k in _CACHE if k[0] in ("sys", "inst")]:
+            del _CACHE[k]
+    _CACHE[key] = system
+    return system
+
+
+def build_instance_dc(init: dict) -> Any:
+    key = ("inst", init["sys"], init["ctrl"], int(init["steps"]),
+           float(init["time"]))
+    if key in _CACHE:
+        return _CACHE[key]
+    from moptipyapps.dynamic_control.instance import Instance
+    system = rebuilt_system(init["sys"], init["steps"], init["time"])
+    ctrl = bundled_controllers(SYSTEM_DIM[init["sys"]])[init["ctrl"]]
+    inst = Instance(system, ctrl)
+    _CACHE[key] = inst
+    return inst
+
+
+def build_objective(init: dict) -> Any:
+    from moptipyapps.dynamic_control import objective
+    cls = getattr(objective, init["cls"])
+    return cls(build_instance_dc(init), bool(init["smm"]))
+
+
+def build_surrogate(spec: dict) -> Any:
+    """Surrogate equations: a linear map of (state, control) plus bias."""
+    import numpy as np
+    w = np.array(spec["W"], dtype=float)
+    bias = np.array(spec["bias"], dtype=float)
+
+    def model(state: Any, _t: float, control: Any, out: Any) -> None:
+        out[:] = w @ np.concatenate((state, control)) + bias
+    return model
+
+
+def objective_inits(catalog: dict) -> Any:
+    @st.composite
+    def inits(draw: Any) -> dict:
+        name = draw(st.sampled_from(BUNDLED_SYSTEMS))
+        ctrl, n = draw(st.sampled_from(catalog[SYSTEM_DIM[name]]))
+        return {"sys": name, "ctrl": ctrl, "n_params": n,
+                "cls": draw(st.sampled_from(["FigureOfMerit",
+                                             "FigureOfMeritLE"])),
+                "smm": draw(st.sampled_from([True, True, True, False])),
+                "steps": draw(st.integers(10, 40)),
+                "time": draw(_f(0.5, 5.0))}
+    return inits()
+
+
+#: blueprints whose output grows polynomially with the state: the corners of
+#: the parameter box make the closed loop extremely stiff or explosive
+POLY_CTRL = ("quadratic", "cubic")
+
+
+@st.composite
+def objective_x(draw: Any, init: dict) -> list[float]:
+    n = init["n_params"]
+    kinds = ["rng", "rng", "near_zero", "rng_small", "corner", "unit",
+             "ints"]
+    x = draw(pvec(n, kinds=tuple(kinds)))
+    return x
+
+
+@st.composite
+def surrogate_specs(draw: Any, n: int, cdim: int) -> dict:
+    kind = draw(st.sampled_from(["decay", "random", "random", "zero"]))
+    w = [[0.0] * (n + cdim) for _ in range(n)]
+    if kind == "decay":
+        for i in range(n):
+            w[i][i] = draw(_f(-2.0, -0.1))
+            for j in range(cdim):
+                w[i][n + j] = draw(_f(-1.0, 1.0))
+    elif kind == "random":
+        w = [[draw(_f(-2.0, 2.0)) for _ in range(n + cdim)]
+             for _ in range(n)]
+    bias = [draw(st.one_of(st.just(0.0), _f(-0.5, 0.5))) for _ in range(n)]
+    return {"W": w, "bias": bias, "kind": kind}
+
+
+def objective_ops(ex: Any) -> Any:
+    """Strategy of the next operation given the live executor."""
+    init = ex.init
+    n = SYSTEM_DIM[init["sys"]]
+    fresh = objective_x(init).map(lambda x: {"op": "evaluate", "x": x})
+    options = [fresh, fresh, fresh,
+               st.just({"op": "initialize"}),
+               surrogate_specs(n, 1).map(
+                   lambda m: {"op": "set_model", "model": m}),
+               st.just({"op": "set_raw"}),
+               st.just({"op": "get_differentials"})]
+    if ex.used:
+        again = st.sampled_from(ex.used).map(
+            lambda x: {"op": "evaluate", "x": list(x), "reuse": True})
+        options.extend([again, again])
+    return st.one_of(*options)
